@@ -87,3 +87,43 @@ def effective_range(spec):
 def counts():
     return st.one_of(st.integers(-3, 6), st.sampled_from([0.217, 0.5, -1.5, 2.25, 0, 1, 1, 2]),
                      st.floats(-4, 8, allow_nan=False))
+
+
+def state_of(obj):
+    """the public data of a correlation object"""
+    r = obj.get_range()
+    return (float(obj.T_ref), None if obj.ND_H_ref is None else float(obj.ND_H_ref), None if obj.ND_S_ref is None else float(obj.ND_S_ref),
+            tuple(sorted((float(t), float(c)) for t, c in (obj.ND_Cp_data or {}).items())), None if r is None else (float(r[0]), float(r[1])))
+
+
+def refused_update(obj, spec):
+    """merge (overwrite=False) a correlation that CONFLICTS with obj and also brings new Cp points and a wider range.
+    -> ('refused', before, after) | ('accepted', ...) | ('no-conflict-possible', ...) | ('raised:<type>', ...)"""
+    from pgradd.Error import ReadOnlyDataError
+    if spec['H'] is None and spec['S'] is None and not spec['Ts']:
+        return 'no-conflict-possible', None, None
+    Ts = list(spec['Ts'])
+    new_T = [(Ts[-1] + 37.0) if Ts else 450.0, (Ts[0] + Ts[1]) / 2.0 if len(Ts) >= 2 and (Ts[0] + Ts[1]) / 2.0 not in Ts else ((Ts[-1] + 91.0) if Ts else 460.0)]
+    dTs, dCps = list(new_T), [1.25, 2.5]
+    H = S = None
+    if spec['H'] is not None:
+        H = spec['H'] + 1.0
+    elif spec['S'] is not None:
+        S = spec['S'] + 1.0
+    else:
+        dTs.append(Ts[0])
+        dCps.append(spec['Cps'][0] + 1.0)        # a conflicting Cp point, met after the new ones
+    lo = min(Ts + [spec['T_ref']] + dTs) if True else 0
+    hi = max(Ts + [spec['T_ref']] + dTs)
+    rng = spec['range'] or [lo, hi]
+    donor = dict(H=H, S=S, Ts=dTs, Cps=dCps, T_ref=spec['T_ref'], range=[max(1.0, min(rng[0], lo) - 20.0), max(rng[1], hi) + 300.0])
+    order = sorted(range(len(dTs)), key=lambda i: dTs[i])
+    donor['Ts'], donor['Cps'] = [dTs[i] for i in order], [dCps[i] for i in order]
+    before = state_of(obj)
+    try:
+        obj.update(build_group(donor))
+    except ReadOnlyDataError:
+        return 'refused', before, state_of(obj)
+    except Exception as e:
+        return 'raised:%s' % type(e).__name__, before, state_of(obj)
+    return 'accepted', before, state_of(obj)
